@@ -541,4 +541,116 @@ theorem xdmaVals_aligned (cfg : List Streamer) (op : XdmaOp) (vs : List Val) (h 
         exact xdmaBlock_aligned cfg op b x (List.mem_zipIdx_iff_getElem?.mp hx) (hzero x.2 hlt) hgen r hr
 
 
+
+/-! ### snax_gemmx: kernel parameters (counts for the i8 branch, loop counts) -/
+
+theorem chunks4_length {α} : ∀ (l : List α), (chunks4 l).length = ceil4 l.length
+  | [] => by simp [chunks4, ceil4]
+  | [_] => by simp [chunks4, ceil4]
+  | [_, _] => by simp [chunks4, ceil4]
+  | [_, _, _] => by simp [chunks4, ceil4]
+  | _ :: _ :: _ :: _ :: rest => by
+    simp [chunks4, chunks4_length rest, ceil4]; omega
+
+theorem bcastN_length (n : Nat) (l : List Int) (h : l.length = 1 ∨ n ≤ l.length) : n ≤ (bcastN n l).length := by
+  unfold bcastN
+  split
+  · simp
+  · next hne =>
+    rcases h with h | h
+    · match l, h with
+      | [x], _ => exact absurd rfl (hne x)
+    · exact h
+
+/-- what a successful mac/qmac parameter computation looked like -/
+theorem gemmxParams_mac_inv (v : Variant) (n : Nat) (op : GemmxOp) (P : GParams) (zp : Option (Nat × Nat))
+    (hk : op.kernel = .mac zp) (h : gemmxParams v n op = .ok P) :
+    ∃ last p0, (if op.i8out then op.s.pats[2]? else op.s.pats.getLast?) = some last ∧ op.s.pats[0]? = some p0 ∧
+      P.m = prodI ((last.dims.filter fun d => d.2 ≠ 0).map (·.1)) ∧ P.m ≠ 0 ∧ P.n = 1 ∧
+      P.k = Int.fdiv (prodI (p0.dims.map (·.1))) P.m ∧
+      (op.i8out = true → ∃ sh, (chunks4 (effRescale n op).shifts).mapM packShiftChunk = .ok sh ∧
+        P.shifts = sh.take (ceil4 n) ∧ P.mults = ((effRescale n op).mults.map Val.c).take n ∧
+        P.tlb = .c P.m ∧ P.byp = .c 0 ∧ P.csr1 = .c (effRescale n op).dr ∧
+        P.csr0 = csr0Val (effRescale n op).minI (effRescale n op).maxI (effRescale n op).outZp (effRescale n op).inZp) := by
+  unfold gemmxParams at h
+  simp only [hk] at h
+  split at h
+  · simp at h
+  · next last hlast =>
+    split at h
+    · simp at h
+    · next p0 hp0 =>
+      split at h
+      · simp at h
+      · next hm =>
+        refine ⟨last, p0, hlast, hp0, ?_⟩
+        split at h
+        · next hi =>
+          split at h
+          · simp at h
+          · next sh hsh =>
+            injection h with h; subst h
+            exact ⟨rfl, hm, rfl, rfl, fun _ => ⟨sh, hsh, rfl, rfl, rfl, rfl, rfl, rfl⟩⟩
+        · next hi =>
+          injection h with h; subst h
+          exact ⟨rfl, hm, rfl, rfl, fun hh => absurd hh hi⟩
+
+
+
+theorem effRescale_lengths (n : Nat) (op : GemmxOp)
+    (hchan : ∀ r, op.post = some r → (r.shifts.length = 1 ∨ n ≤ r.shifts.length) ∧
+      (r.mults.length = 1 ∨ n ≤ r.mults.length)) :
+    n ≤ (effRescale n op).shifts.length ∧ n ≤ (effRescale n op).mults.length := by
+  unfold effRescale
+  cases hp : op.post with
+  | none => simp [defaultRescale]
+  | some r =>
+    obtain ⟨h1, h2⟩ := hchan r hp
+    exact ⟨bcastN_length n r.shifts h1, bcastN_length n r.mults h2⟩
+
+theorem gemmx_counts_i8 (v : Variant) (n : Nat) (op : GemmxOp) (P : GParams) (zp : Option (Nat × Nat))
+    (hk : op.kernel = .mac zp) (hi : op.i8out = true) (h : gemmxParams v n op = .ok P)
+    (hchan : ∀ r, op.post = some r → (r.shifts.length = 1 ∨ n ≤ r.shifts.length) ∧
+      (r.mults.length = 1 ∨ n ≤ r.mults.length)) :
+    P.shifts.length = ceil4 n ∧ P.mults.length = n := by
+  obtain ⟨_, _, _, _, _, _, _, _, hi8⟩ := gemmxParams_mac_inv v n op P zp hk h
+  obtain ⟨sh, hsh, hs, hm, _⟩ := hi8 hi
+  obtain ⟨h1, h2⟩ := effRescale_lengths n op hchan
+  have hlen := (mapM_ok_get _ _ hsh).1
+  rw [chunks4_length] at hlen
+  rw [hs, hm]
+  simp only [List.length_take, List.length_map, hlen]
+  unfold ceil4 at *
+  omega
+
+theorem gemmxParams_rescale_inv (v : Variant) (n : Nat) (op : GemmxOp) (P : GParams) (r : Rescale)
+    (hk : op.kernel = .rescale r) (h : gemmxParams v n op = .ok P) :
+    ∃ p0, op.s.pats[0]? = some p0 ∧ P.k = 1 ∧ P.n = 1 ∧ P.m = prodI (p0.dims.map (·.1)) ∧ P.tlb = .c P.m := by
+  unfold gemmxParams at h
+  simp only [hk] at h
+  split at h
+  · simp at h
+  · next p0 hp0 =>
+    split at h
+    · injection h with h; subst h; exact ⟨p0, hp0, rfl, rfl, rfl, rfl⟩
+    · simp at h
+
+theorem gemmx_loopcount (v : Variant) (n : Nat) (op : GemmxOp) (P : GParams) (h : gemmxParams v n op = .ok P)
+    (p0 : Pattern) (hp0 : op.s.pats[0]? = some p0) (hdiv : P.m ∣ prodI (p0.dims.map (·.1))) :
+    P.k * P.n * P.m = prodI (p0.dims.map (·.1)) := by
+  cases hk : op.kernel with
+  | mac zp =>
+    obtain ⟨_, p0', _, hp0', _, _, hn, hkk, _⟩ := gemmxParams_mac_inv v n op P zp hk h
+    rw [hp0] at hp0'; injection hp0' with hp0'; subst hp0'
+    rw [hn, hkk, Int.mul_one]
+    exact Int.fdiv_mul_cancel hdiv
+  | rescale r =>
+    obtain ⟨p0', hp0', h1, h2, h3, _⟩ := gemmxParams_rescale_inv v n op P r hk h
+    rw [hp0] at hp0'; injection hp0' with hp0'; subst hp0'
+    rw [h1, h2, h3]; simp
+  | other =>
+    unfold gemmxParams at h
+    simp [hk] at h
+
+
 end SnaxVerif.SV
